@@ -166,6 +166,50 @@ pub struct C17Ctx<'a> {
 const TRANSPORT_IO_TEXTS: &[&str] = &["sim: connection reset", "sim: peer closed without close_notify", "sim: peer closed", "sim: write failed"];
 
 pub fn check_c17(cx: &C17Ctx, out: &mut Outcome) {
+    // ---- send_reset discards what is still unsent: DATA that needed a window grant the endpoint only processed after
+    // the reset call can never be written (frames already handed to the codec need no grant)
+    {
+        let ws = wire_streams(cx.tap);
+        let _ = &ws;
+        let mut key_stream: HashMap<(Side, u32), u32> = HashMap::new();
+        for ev in cx.events {
+            if let Api::SentHead { stream, .. } = &ev.api {
+                if *stream != 0 {
+                    key_stream.entry((ev.side, ev.key)).or_insert(*stream);
+                }
+            }
+        }
+        for ev in cx.events {
+            if let Api::SentReset { .. } = &ev.api {
+                let e = ev.side;
+                if !cx.h2_sides.contains(&e) {
+                    continue;
+                }
+                let sid = match key_stream.get(&(e, ev.key)) {
+                    Some(s) => *s,
+                    None => continue,
+                };
+                // first grant (stream or connection level, or a SETTINGS frame) delivered to E after the call
+                let grant_t = cx.tap.frames.iter().filter(|f| f.from != e).filter(|f| matches!(&f.frame, Ok(Frame::WinUp { stream, .. }) if *stream == sid || *stream == 0) || matches!(&f.frame, Ok(Frame::Settings { ack: false, .. }))).filter_map(|f| f.t_d0).filter(|t| *t > ev.step).min();
+                let grant_t = match grant_t {
+                    Some(t) => t,
+                    None => continue,
+                };
+                let own_rst = cx.tap.frames.iter().filter(|f| f.from == e).filter_map(|f| if let Ok(Frame::Rst { stream, .. }) = &f.frame { if *stream == sid { Some(f.t_w0) } else { None } } else { None }).min();
+                // (two executor steps of slack: the grant is processed in the poll after its delivery)
+                let late = cx.tap.frames.iter().find(|f| f.from == e && f.raw.stream == sid && f.t_w0 > grant_t + 2 && matches!(&f.frame, Ok(Frame::Data { data, .. }) if !data.is_empty()) && own_rst.map(|r| r > f.t_w0).unwrap_or(true));
+                if let Some(f) = late {
+                    out.fail(
+                        "C17",
+                        "reset/discard",
+                        "C17/unsent-data-written-after-send_reset",
+                        format!("{} stream {}: send_reset was called at step {}; a DATA frame of {} bytes on that stream was first written at step {}, after a window grant that only arrived at step {} — data still queued at the time of the reset must be discarded", e.name(), sid, ev.step, f.raw.payload.len(), f.t_w0, grant_t),
+                    );
+                    break;
+                }
+            }
+        }
+    }
     // ---- an I/O failure surfaces on the handles with the transport's own error
     if let Some((x, text)) = cx.read_fault {
         let mut seen_exact = false;
@@ -390,7 +434,10 @@ pub fn check_c19(cx: &C19Ctx, out: &mut Outcome) {
             );
             continue;
         }
-        if st.store_slab_len != st.store_ids_len {
+        // (a record that is only kept as a remembered local reset need not be reachable by id: e.g. a finished stream
+        // whose handle was used for a late send_reset; unreachable records are a leak once there are more records
+        // than remembered resets)
+        if st.store_slab_len != st.store_ids_len && st.store_slab_len > st.num_local_reset_streams {
             // which history: the ids of the unreachable records are read through the probe and classified from the trace
             let ids: Vec<u32> = cx.orphans.iter().filter(|o| o.0 == *side).flat_map(|o| o.1.iter().filter(|x| x.1 == 0).map(|x| x.0)).collect();
             let ws = wire_streams(cx.tap);
